@@ -36,6 +36,11 @@ pub fn judge(v: f64, acc: f32, max_den: u8, max_whole: u32, r: Option<Number>) -
         Number::Fraction { whole, num, den, err } => whole as f64 + err + num as f64 / den as f64,
     };
     let back = n.value();
+    // the other way to read the exact value: the conversion into f64
+    let converted: f64 = n.into();
+    if converted.to_bits() != back.to_bits() && ulps(converted, mine) > 2 {
+        return bad("conversion_to_f64_disagrees_with_fields", format!("{n:?}: f64::from gives {converted:e}, the fields give {mine:e}"));
+    }
     if ulps(back, mine) > 2 {
         return bad("value_method_disagrees_with_fields", format!("{n:?}: value() gives {back:e}, the fields give {mine:e}"));
     }
